@@ -30,13 +30,15 @@ PROPS_FILE = "Props/C03.v"
 MODEL_TARGETS = ["Corr/C03_Eval.v"]
 ALLOWED_AXIOMS = []
 RULE = ("scripts over {send,recv,close,select(send/recv/default cases, nil channel cases),range,go,Gosched,Goexit,print}; "
-        "exhaustive domains, fixed-seed samples of them per run (quick 3.5k+3.5k, thorough 40k+40k): ex2 = main=[go 1]+<=2 ops x goroutine 1 <=2 ops; "
+        "exhaustive domains, fixed-seed samples of them per run (quick 2.2k+2.2k, thorough 40k+40k): ex2 = main=[go 1]+<=2 ops x goroutine 1 <=2 ops; "
         "ex3 = main=[go 1, go 2, optional Gosched so that both goroutines park first]+<=1 op (thorough <=2) x two goroutines x 1 op; over a 10-op "
         "(thorough 13-op) alphabet on one channel x caps {0,1,2} x pick oracle {all-first, all-last} x slice oracle {never, always, alternating}; "
         "random: 2-5 goroutines (nested go), 1-3 channels caps 0..3 + nil, 1-8 ops each, random pick/slice oracles; all sent values distinct. "
         "non-trivial = at least two goroutines communicate or block; distinct by (caps, scripts, oracles). "
         "programs: random scripts and Kahn-style (single producer/consumer per channel) deterministic programs, channel element type "
-        "int / struct / array (senders overwrite the sent variable right after the send)")
+        "int / struct / array (senders overwrite the sent variable right after the send); the size argument of every make(chan T, n) is written in "
+        "one of 20 ways (literal, variable / typed constant / conversion / function result / named type over int, int8..int64, uint, uint8..uint64, "
+        "uintptr) and cap()/len() of the new channel are observed")
 TRUSTED = ["model of goroutines.js/types.js written by hand (coq/Model/C03_Chan.v), tied by this correspondence",
            "harness/js/c03_driver.js: interpreter of scripts in the compiled calling convention; FIFO timer queue standing for node's "
            "same-delay timer order; runtime.Gosched/Goexit re-written by hand from natives/src/runtime/runtime.go (the compiled-program "
@@ -74,7 +76,7 @@ def prepare(ctx):
 # ---------------------------------------------------------------- running the real prelude
 
 def run_driver(ctx, cases, tag):
-    shard = 1500
+    shard = max(50, min(1500, -(-len(cases) // C.NCPU)))
     shards = [cases[i:i + shard] for i in range(0, len(cases), shard)]
 
     def one(k):
@@ -163,7 +165,7 @@ HEADER = ("From Coq Require Import List NArith ZArith.\nFrom Verif Require Impor
 
 def coq_mismatches(ctx, vcases, tag):
     """evaluate case_ok in Coq; returns (list of mismatching indices, list of error texts)"""
-    shard = 400
+    shard = max(100, min(400, -(-len(vcases) // C.NCPU)))      # one round on all cores when possible
     shards = [vcases[i:i + shard] for i in range(0, len(vcases), shard)]
 
     def run_shard(k):
@@ -408,7 +410,29 @@ PANIC_TEXT = {"runtime error: send on closed channel": "send-closed", "send on c
               "runtime error: close of nil channel": "close-nil", "close of nil channel": "close-nil"}
 
 
-def go_program(case, elem="int"):
+# how the size argument of make(chan T, n) is written: the spec allows any integer type, constant or not
+CAP_STYLES = ["lit", "var int64", "var uint64", "conv int64", "var int8", "const uint64", "var uint8", "named int64", "var int16", "call int64",
+              "var uint16", "const int64", "var int32", "call uint64", "var uint32", "var int", "named uint64", "var uint", "var uintptr", "conv uint64"]
+
+
+def cap_decl(i, T, cap, style):
+    kind, _, typ = style.partition(" ")
+    if kind == "lit":
+        return ["var ch%d = make(chan %s, %d)" % (i, T, cap)]
+    if kind == "var":
+        return ["var cap%d %s = %d" % (i, typ, cap), "var ch%d = make(chan %s, cap%d)" % (i, T, i)]
+    if kind == "const":
+        return ["const cap%d %s = %d" % (i, typ, cap), "var ch%d = make(chan %s, cap%d)" % (i, T, i)]
+    if kind == "conv":
+        return ["var ch%d = make(chan %s, %s(%d))" % (i, T, typ, cap)]
+    if kind == "named":
+        return ["type size%d %s" % (i, typ), "var cap%d size%d = %d" % (i, i, cap), "var ch%d = make(chan %s, cap%d)" % (i, T, i)]
+    if kind == "call":
+        return ["func capf%d(n int) %s { return %s(n) }" % (i, typ, typ), "var ch%d = make(chan %s, capf%d(%d))" % (i, T, i, cap)]
+    raise ValueError(style)
+
+
+def go_program(case, elem="int", style0=0):
     """elem: element type of every channel. "int", or a value type that the translation has to clone on send
     ("struct" = struct{a int}, "array" = [1]int): the sender then sends from addressable variables which it
     overwrites right after the send completed, so a value that was not copied shows up altered at the receiver."""
@@ -422,7 +446,7 @@ def go_program(case, elem="int"):
     L.append("var _ = runtime.Gosched")
     L.append("var ch0 chan %s" % T)
     for i, cap in enumerate(case["caps"], 1):
-        L.append("var ch%d = make(chan %s, %d)" % (i, T, cap))
+        L += cap_decl(i, T, cap, CAP_STYLES[(style0 + i) % len(CAP_STYLES)])
     L += ["var nextID = 1", "", "func report(id int) {", "\tif r := recover(); r != nil {", '\t\tprintln(id, "panic", r.(error).Error())', "\t}", "}", ""]
 
     def operand(i, v, pre):
@@ -469,7 +493,7 @@ def go_program(case, elem="int"):
                 body.append("\t}")
                 L += pre + body
         L += ["}", ""]
-    L += ["func main() {", "\ts0(0)", "}", ""]
+    L += ["func main() {"] + ['\tprintln("cap", %d, cap(ch%d), len(ch%d))' % (i, i, i) for i in range(1, len(case["caps"]) + 1)] + ["\ts0(0)", "}", ""]
     return "\n".join(L)
 
 
@@ -566,8 +590,8 @@ ELEMS = ["struct", "int", "array"]
 
 def programs(ctx, variant, pool):
     r = ctx.rng("programs")
-    n_rnd = 24 if ctx.quick else 400
-    n_kahn = 12 if ctx.quick else 250
+    n_rnd = 20 if ctx.quick else 400
+    n_kahn = 10 if ctx.quick else 250
     cases = []
     while len(cases) < n_rnd:
         c = gen_random_case(r)
@@ -580,7 +604,7 @@ def programs(ctx, variant, pool):
     def one(i):
         c = allc[i]
         d = os.path.join(ctx.work, "p%d" % i)
-        src = go_program(c, ELEMS[i % len(ELEMS)])
+        src = go_program(c, ELEMS[i % len(ELEMS)], style0=i * 7)
         C.write_go_program(d, {"main.go": src}, module="verifc03")
         rc, log = C.gopherjs_build(d, timeout=900)
         if rc == 124:
@@ -589,13 +613,15 @@ def programs(ctx, variant, pool):
             return dict(i=i, err="build: " + log[-400:], src=src)
         env = dict(os.environ, C03_PICKS=",".join(str(p) for p in c["picks"]), C03_BREAKS=",".join(str(b) for b in c["breaks"]))
         rc, out, err = C.sh2(["node", "-r", PRELOAD, "out.js"], cwd=d, timeout=600, env=env)
-        res = dict(i=i, rc=rc, trace=parse_program_output(out + "\n" + err), deadlock="all goroutines are asleep" in err, src=src, stderr=err[-300:])
+        res = dict(i=i, rc=rc, trace=parse_program_output(out + "\n" + err), deadlock="all goroutines are asleep" in err, src=src, stderr=err[-300:],
+                   caps=re.findall(r"^cap (\S+) (\S+) (\S+)\s*$", out + "\n" + err, re.M))
         if c["fam"] == "kahn":
             rc2, out2, err2 = C.sh2(["go", "run", "main.go"], cwd=d, timeout=900, env=C.goenv())
             res["native"] = dict(rc=rc2, trace=parse_program_output(out2 + "\n" + err2), deadlock="all goroutines are asleep" in err2)
         return res
 
     outs = C.parallel_map(one, range(len(allc)))
+    infra = lambda rc: rc < 0 or rc in (124, 137, 143)
     goexit_witness(ctx)
     nat = 0
     for o in outs:
@@ -609,7 +635,12 @@ def programs(ctx, variant, pool):
             ctx.violation("program-build-failed", "gopherjs build failed on a generated program", dict(rep, log=o["err"]), concrete=False)
             continue
         outcome = "deadlock" if o["deadlock"] else ("exit" if o["rc"] == 0 else "exit-code-%d" % o["rc"])
-        infra = lambda rc: rc < 0 or rc in (124, 137, 143)
+        # (0) make(chan T, n): cap() is n and the new channel is empty, whatever integer type n has
+        want_caps = [(str(k), str(cp), "0") for k, cp in enumerate(c["caps"], 1)]
+        if not infra(o["rc"]) and [tuple(x) for x in o["caps"]] != want_caps:
+            ctx.violation("make-chan-capacity-wrong", "cap()/len() of a freshly made channel are not (size argument, 0): got %r, want %r" % (o["caps"], want_caps),
+                          dict(rep, compiled=dict(caps=o["caps"], trace=o["trace"], outcome=outcome, stderr=o["stderr"])))
+            continue
         if infra(o["rc"]) or ("native" in o and infra(o["native"]["rc"])):
             ctx.notes.append("program %d skipped: run timed out or was killed" % o["i"])
             continue
@@ -729,7 +760,7 @@ def correspond(ctx):
             r0 = ctx.rng("sample")
             ex2 = [c for c in ex if c["fam"] == "ex2"]
             ex3 = [c for c in ex if c["fam"] == "ex3"]
-            ex = r0.sample(ex2, min(len(ex2), 3500)) + r0.sample(ex3, min(len(ex3), 3500))
+            ex = r0.sample(ex2, min(len(ex2), 2200)) + r0.sample(ex3, min(len(ex3), 2200))
         else:
             # thorough: the 13-op alphabet domains have ~0.5 M members; explore a fixed-seed sample of 80 k
             r0 = ctx.rng("sample")
@@ -738,7 +769,7 @@ def correspond(ctx):
             ex = r0.sample(ex2, min(len(ex2), 40000)) + r0.sample(ex3, min(len(ex3), 40000))
         check_cases(ctx, ex, variant, "ex", pool)
         r = ctx.rng("random")
-        n = 1500 if ctx.quick else 20000
+        n = 1000 if ctx.quick else 20000
         rnd = [gen_random_case(r, big=(i % 5 == 0)) for i in range(n)]
         res = check_cases(ctx, rnd, variant, "rnd", pool)
         for c, x in list(zip(rnd, res))[:3]:
